@@ -26,6 +26,7 @@ def modelEnv (fs : FS) : Env where
   Call_updateLocations c goroot lg gomods gopaths := some (c.updateLocations goroot lg gomods gopaths)
   Stack_updateLocations s goroot lg gomods gopaths := some (s.updateLocations goroot lg gomods gopaths)
   Signature_updateLocations s goroot lg gomods gopaths := some (s.updateLocations goroot lg gomods gopaths)
+  Call_init c srcPath line := some (c.init srcPath line, ())
 
 variable (fs : FS)
 
@@ -537,4 +538,37 @@ end PP.TrS
 
 #print axioms PP.TrS.tie_Call_updateLocations
 
+/-! ### `Call.init` (stack.go): the file name, the last directory and the
+`_test/_testmain.go` special case of a frame's position line -/
+namespace PP.TrS
+open PP PP.Go
+variable (fs : FS)
 
+theorem tie_Call_init (c : Call) (srcPath : Bytes) (line : Nat) :
+    TrS.Call_init (modelEnv fs) c srcPath line = (modelEnv fs).Call_init c srcPath line := by
+  show _ = some (c.init srcPath line, ())
+  unfold TrS.Call_init Call.init
+  by_cases hs : srcPath = []
+  · simp [hs]
+  · simp only [bne_iff_ne, ne_eq, hs, not_false_eq_true, ↓reduceIte]
+    cases h1 : Bytes.lastIndexByte srcPath 47 with
+    | none =>
+      simp only [h1, Option.bind_some, Option.bind_eq_bind]
+      split <;> simp_all [testMainSrc]
+    | some i =>
+      have hi := (lastIndexByte_eq_some h1).2.2
+      simp only [h1, goSlice_from srcPath (i + 1) (by omega), goSlice_to srcPath i (by omega),
+        Option.bind_some, Option.bind_eq_bind]
+      cases h2 : Bytes.lastIndexByte (List.take i srcPath) 47 with
+      | none =>
+        simp only [Option.bind_some]
+        split <;> simp_all [testMainSrc]
+      | some j =>
+        have hj := (lastIndexByte_eq_some h2).2.2
+        simp only [List.length_take] at hj
+        simp only [goSlice_from srcPath (j + 1) (by omega), Option.bind_some]
+        split <;> simp_all [testMainSrc]
+
+end PP.TrS
+
+#print axioms PP.TrS.tie_Call_init
